@@ -251,11 +251,13 @@ LiveStep ==
   /\ UNCHANGED <<svars, wvars, sub, lagged, hpc, cursor, cur, last, count, doneState, doneVal, llast,
                  hbAlive, npulse, delivered, closedSeen, pvars, gvars>>
 
+\* (MaxPulse bounds the pulses sent, not the heartbeat's noticing that the live side ended: that step is always open)
 Pulse ==
-  /\ hbAlive /\ npulse < MaxPulse
+  /\ hbAlive
   /\ IF HbStops /\ lpc = "exit"
      THEN hbAlive' = FALSE /\ UNCHANGED <<out, npulse>>
-     ELSE /\ Len(out) < M /\ out' = Append(out, PULSE) /\ npulse' = npulse + 1 /\ UNCHANGED hbAlive
+     ELSE /\ npulse < MaxPulse
+          /\ Len(out) < M /\ out' = Append(out, PULSE) /\ npulse' = npulse + 1 /\ UNCHANGED hbAlive
   /\ Log("hb")
   /\ UNCHANGED <<svars, wvars, sub, inbox, lagged, hpc, cursor, cur, last, count, doneState, doneVal, lpc, lcur,
                  llast, lcount, delivered, closedSeen, pvars, gvars>>
@@ -333,4 +335,35 @@ C11_NoSilentGap == (lagged /\ lpc = "exit" /\ hpc = "exit") => WillClose
 \* nothing is delivered after the stream was seen closed
 C11_ClosedIsFinal == closedSeen => out = <<>>
 C09_EphemeralNotStored == eph \cap stream = {}
+
+-----------------------------------------------------------------------------
+(* liveness: what every fair schedule reaches (configs MC_conc_live_*; no VIEW, Gen = FALSE).  Weak fairness per     *)
+(* actor is what the code gives: every thread / task that can run eventually does (the gate scheduler of the        *)
+(* harness releases every waiting actor before it declares a scenario finished), a bounded channel only blocks      *)
+(* while it is full, and the append mutex is handed on when its holder returns.                                     *)
+Fairness ==
+  /\ \A w \in Writers : WF_vars(AssignId(w) \/ Commit(w) \/ Broadcast(w) \/ Return(w))
+  /\ WF_vars(Subscribe)
+  /\ WF_vars(HistStart \/ HistStep \/ HistEnd \/ HistDone)
+  /\ WF_vars(LiveStart \/ LiveAwait \/ LiveReady \/ LiveStep)
+  /\ WF_vars(Pulse) /\ WF_vars(ConsumerRecv) /\ WF_vars(Poll)
+FairSpec == Spec /\ Fairness
+
+\* no schedule leaves a writer stuck (the lock is always released) and the reader's tasks always come to rest
+L_WritersFinish == <>[]WritersDone
+L_Settles == <>[](WritersDone /\ hpc = "exit" /\ lpc \in {"exit", "wait"} /\ out = <<>>)
+\* C02: a poller that keeps asking with its last id ends up with the whole stream
+L_PollerComplete == <>[](stream \subseteq pollSeen)
+\* C03 as progress: an open, unlagged follower without limit ends up holding everything it is owed
+L_FollowerComplete == <>[]((Following /\ Limit = 0 /\ Open /\ ~lagged) => MustHave \subseteq ToSet(delivered))
+L_FollowerCompleteKnown ==
+  <>[]((Following /\ Limit = 0 /\ Open /\ ~lagged) =>
+         \A i \in MustHave \ ToSet(delivered) : (i \in eph \/ llast \in Future) /\ llast # NONE /\ i <= llast)
+\* C11: once the limit has been delivered the stream ends (the consumer sees the end, it is not left hanging);
+\* a read that does not follow always ends; a lagged follower is closed, never left silently short
+L_LimitEnds == <>[]((Limit # 0 /\ Len(Data(delivered)) = Limit) => closedSeen)
+L_NonFollowEnds == (~Following) => <>closedSeen
+L_LagEnds == <>[](lagged => closedSeen)
+\* C03: a threshold-owing replay (from history, following, no limit) does send its threshold
+L_ThresholdSent == (Following /\ Limit = 0 /\ ~OptTail) => <>(\E p \in 1..Len(delivered) : delivered[p] = THRESH)
 =============================================================================
